@@ -134,6 +134,12 @@ def run(ctx: Ctx):
     # writer, readers and purge of the flat transaction tables agree on the key
     from .common_node import transaction_table_keys
     transaction_table_keys(ctx, "C14-R11")
+    from .common_node import stat_counters_synchronised
+    stat_counters_synchronised(ctx, "C14-R12")
+    from .common_node import close_is_thread_tolerant
+    close_is_thread_tolerant(ctx, "C14-R13")
+    from .common_node import wakeup_pipe_cannot_block
+    wakeup_pipe_cannot_block(ctx, "C14-R14")
 
 
 def _origin_tag(chain: list[str]) -> str:
@@ -259,6 +265,30 @@ def _slot_pairing(ctx: Ctx, model, F):
                  "a handler that ends with a BaseException which is no Exception (sys.exit(), "
                  "asyncio.CancelledError out of asyncio.run()) skips it - the slot is lost and with "
                  "max_threads=1 every later request is answered TOO_BUSY for ever")
+    # the same outcome of a handler of a PLAIN Application, which runs on the connection's reader
+    # thread: the dispatch try of _receive_message (or the isolation in the reader loop) catches
+    # BaseException, or the reader thread ends with the connection still READY and unread
+    cons_r = "Node._receive_message:handler#base-exception"
+    ctx.inst(cons_r)
+    rm_ = model.cls("node.node", "Node").methods.get("_receive_message")
+    rq_ = model.cls("node.peer", "PeerConnection").methods.get("work_read_queue")
+
+    def _catches_base(fn_, callee_names):
+        for t_ in ast.walk(fn_.node):
+            if isinstance(t_, ast.Try) and any(
+                    isinstance(c_, ast.Call) and A.call_name(c_).split(".")[-1] in callee_names
+                    for b_ in t_.body for c_ in ast.walk(b_)) and any(
+                    h.type is None or "BaseException" in ast.unparse(h.type) for h in t_.handlers):
+                return True
+        return False
+    if rm_ is None or rq_ is None:
+        ctx.error("_receive_message / work_read_queue not found", rule="C14-R2")
+    elif not (_catches_base(rm_, {"_receive_app_request"}) or _catches_base(rq_, {"__dispatch_message", "_PeerConnection__dispatch_message"})):
+        ctx.fail(cons_r, rm_.loc(), "a request handler of a plain Application runs on the connection's "
+                 "reader thread inside `try ... except Exception`: a handler that ends with a "
+                 "BaseException which is no Exception (sys.exit(), asyncio.CancelledError) ends the "
+                 "reader thread - the connection stays READY in every table and nothing reads from "
+                 "it any more")
     for p in puts:
         after = g.reach([p], include_starts=False)
         if any(q in after for q in puts):
